@@ -2,5 +2,6 @@ import CddVerif.Properties.C08Whole
 import CddVerif.Properties.C08Google
 import CddVerif.Properties.C08Numpy
 import CddVerif.Properties.C08Iface
+import CddVerif.Properties.C02Rest
 /-! C08 — aggregator of the property's theorem files (what the check builds and audits):
 `C08` (normaliser idempotence), `C08Whole` (ReST whole-docstring fixpoint), `C08Google`, `C08Numpy`, `C08Iface` (class / pydantic / function / argparse hops of the C02 interface model). -/
